@@ -48,6 +48,16 @@ CHECKS.update({
                   "repository's own tests do.",
              tech="Coq lemmas on the weak (duplicate-tolerant) invariant + differential correspondence with a multiset spec oracle", ref="DESIGN.md §6 C16"),
 })
+CHECKS.update({
+ 'C06': dict(text="Theorems C06_* (Coq): the model of operator== (size, cached edge number, label map, mutual adjacency inclusion) is defined on any two graphs satisfying the invariant "
+                  "and is true exactly when sizes, edge sets and labels agree; for ANY two valid histories the verdict equals 'the two histories denote the same graph' (so insertion "
+                  "order and past content cannot matter); reflexive, symmetric. Tied to /repo by pairs of histories on all eight classes: different constructions of one target, "
+                  "one-edge/one-label/size differences, random pairs; ==, != both ways, copies, assignment, independence of copies.",
+             note=TB + "Theorems are for the directed labelled model (the undirected, multigraph and weighted classes delegate to the same base-class operator== in the code and call the "
+                  "same graph_eqb in the model; their verdicts are covered by the correspondence and the spec oracle). Independence of copies is a property of C++ value semantics: "
+                  "identity in the model, checked on the implementation only.",
+             tech="Coq proof (operator== model <-> value equality of denoted graphs) + differential correspondence on history pairs", ref="DESIGN.md §6 C06"),
+})
 NA = {'C20': "about the C++ type checker/linker accepting client programs (template instantiation, overload resolution, ODR): no executable Gallina model has a counterpart, so machine-checked proof cannot apply (DESIGN.md §6 C20)"}
 def main():
     props = [json.loads(l)['id'] for l in open(os.path.join(ROOT, 'properties.jsonl'))]
